@@ -5,8 +5,14 @@ OBLIGATIONS "GenArith": the straight-line arithmetic of the hand-written model I
 /verif/extract/extract.py by /verif/extract/extract_arith.py: one Lean definition per Rust function,
 one `let` per Rust statement.  Each theorem below states that such a regenerated definition is equal
 (as a function) to the hand-written model definition that all other properties are proved about.
-An edit of one of these Rust functions changes the generated text, and the corresponding theorem
-no longer compiles (or the extractor refuses the new shape), whether or not a test input exposes it.
+A change of the MEANING of one of these Rust functions makes the corresponding theorem fail (or the
+extractor refuses the new shape), whether or not a test input exposes it.  A rewrite that preserves the
+meaning does not, for the functions over the concrete fields: the proofs (`gen_eq`,
+PP/Proofs/GenArithTactic.lean) compare the two sides up to `let`s / projections first and, if that
+fails, extensionally up to the commutative-ring laws of `Fq` (core solver `grobner`).  The functions
+that are generic in the coefficient field are stated over bare notation classes (no laws); for those
+only the syntactic comparison is possible, and the law-assuming versions are the additional
+`_of_ring` / `_Fq` / `_Fq2` theorems below.
 
 Correspondence Rust -> generated -> model:
   fq2.rs   mul_by_nonresidue norm zero one is_zero square double negate add_assign sub_assign mul_assign
@@ -143,6 +149,53 @@ theorem Jac_subMixed : (A.Jac.subMixed : Jac F → Aff F → Jac F) = PP.Jac.sub
 theorem osswuHelp : (A.osswuHelp : F → F → F → F → OsswuHelp F) = PP.osswuHelp := osswuHelp_eq
 
 end
+
+/-! ## the arithmetic-carrying functions of `curve_impl!` / `osswu_help` over a coefficient ring WITH laws
+
+The theorems of the previous section are over bare notation classes, where only syntactic equality
+(up to `let`s and projections) can hold: an algebraically equivalent rewrite of the Rust formulas makes
+them fail although the code is still right.  Over a coefficient type with ring laws
+(`Lean.Grind.CommRing F`, core class; `PP.GenArithTactic.LawfulSqDbl F`: `sq a = a * a`, `dbl a = a + a`)
+the same equalities are proved up to ring identities and survive such rewrites; `_Fq` / `_Fq2` are the
+instances for the model's fields with the model's own operations (the statements are literally those of
+the previous section at `F := Fq`, `Fq2`). -/
+
+section
+open PP.GenArithTactic
+set_option linter.unusedSectionVars false
+variable {F : Type} [Lean.Grind.CommRing F] [FieldOps F] [LawfulSqDbl F] [DecidableEq F]
+
+theorem Aff_isOnCurve_of_ring : (A.Aff.isOnCurve : F → Aff F → Bool) = PP.Aff.isOnCurve := Aff_isOnCurve_eq_of_ring
+theorem Jac_beq_of_ring : (A.Jac.beq : Jac F → Jac F → Bool) = PP.Jac.beq := Jac_beq_eq_of_ring
+theorem Jac_double_of_ring : (A.Jac.double : Jac F → Jac F) = PP.Jac.double := Jac_double_eq_of_ring
+theorem Jac_add_of_ring : (A.Jac.add : Jac F → Jac F → Jac F) = PP.Jac.add := Jac_add_eq_of_ring
+theorem Jac_addMixed_of_ring : (A.Jac.addMixed : Jac F → Aff F → Jac F) = PP.Jac.addMixed := Jac_addMixed_eq_of_ring
+theorem Jac_toAffine_of_ring : (A.Jac.toAffine : Jac F → Option (Aff F)) = PP.Jac.toAffine := Jac_toAffine_eq_of_ring
+theorem osswuHelp_of_ring : (A.osswuHelp : F → F → F → F → OsswuHelp F) = PP.osswuHelp := osswuHelp_eq_of_ring
+theorem Aff_getPointFromX_of_ring [SqrtOps F] :
+    (A.Aff.getPointFromX : F → F → Bool → Option (Aff F)) = PP.Aff.getPointFromX := Aff_getPointFromX_eq_of_ring
+
+end
+
+theorem Aff_isOnCurve_Fq : (A.Aff.isOnCurve : Fq → Aff Fq → Bool) = PP.Aff.isOnCurve := Aff_isOnCurve_eq_Fq
+theorem Jac_beq_Fq : (A.Jac.beq : Jac Fq → Jac Fq → Bool) = PP.Jac.beq := Jac_beq_eq_Fq
+theorem Jac_double_Fq : (A.Jac.double : Jac Fq → Jac Fq) = PP.Jac.double := Jac_double_eq_Fq
+theorem Jac_add_Fq : (A.Jac.add : Jac Fq → Jac Fq → Jac Fq) = PP.Jac.add := Jac_add_eq_Fq
+theorem Jac_addMixed_Fq : (A.Jac.addMixed : Jac Fq → Aff Fq → Jac Fq) = PP.Jac.addMixed := Jac_addMixed_eq_Fq
+theorem Jac_toAffine_Fq : (A.Jac.toAffine : Jac Fq → Option (Aff Fq)) = PP.Jac.toAffine := Jac_toAffine_eq_Fq
+theorem osswuHelp_Fq : (A.osswuHelp : Fq → Fq → Fq → Fq → OsswuHelp Fq) = PP.osswuHelp := osswuHelp_eq_Fq
+theorem Aff_getPointFromX_Fq :
+    (A.Aff.getPointFromX : Fq → Fq → Bool → Option (Aff Fq)) = PP.Aff.getPointFromX := Aff_getPointFromX_eq_Fq
+
+theorem Aff_isOnCurve_Fq2 : (A.Aff.isOnCurve : Fq2 → Aff Fq2 → Bool) = PP.Aff.isOnCurve := Aff_isOnCurve_eq_Fq2
+theorem Jac_beq_Fq2 : (A.Jac.beq : Jac Fq2 → Jac Fq2 → Bool) = PP.Jac.beq := Jac_beq_eq_Fq2
+theorem Jac_double_Fq2 : (A.Jac.double : Jac Fq2 → Jac Fq2) = PP.Jac.double := Jac_double_eq_Fq2
+theorem Jac_add_Fq2 : (A.Jac.add : Jac Fq2 → Jac Fq2 → Jac Fq2) = PP.Jac.add := Jac_add_eq_Fq2
+theorem Jac_addMixed_Fq2 : (A.Jac.addMixed : Jac Fq2 → Aff Fq2 → Jac Fq2) = PP.Jac.addMixed := Jac_addMixed_eq_Fq2
+theorem Jac_toAffine_Fq2 : (A.Jac.toAffine : Jac Fq2 → Option (Aff Fq2)) = PP.Jac.toAffine := Jac_toAffine_eq_Fq2
+theorem osswuHelp_Fq2 : (A.osswuHelp : Fq2 → Fq2 → Fq2 → Fq2 → OsswuHelp Fq2) = PP.osswuHelp := osswuHelp_eq_Fq2
+theorem Aff_getPointFromX_Fq2 :
+    (A.Aff.getPointFromX : Fq2 → Fq2 → Bool → Option (Aff Fq2)) = PP.Aff.getPointFromX := Aff_getPointFromX_eq_Fq2
 
 /-! ## `SubgroupCheck` (ec/g1.rs, ec/g2.rs), `osswu_map` (osswu_map/g1.rs, g2.rs), `clear_h` (cofactor.rs),
     `map_to_curve` / `map2_to_curve` (src/map_to_curve.rs) -/
